@@ -45,15 +45,11 @@ class LineIndex:
         n = len(b)
         while i < n:
             c = b[i]
+            # a line of the input FILE ends at a line feed (so does a CR LF pair). A lone carriage return and
+            # U+2028 / U+2029 are line terminators of the ECMAScript grammar but not of files as editors, diff
+            # tools and source maps count them; the properties speak of lines "in the input file"
             if c == 0x0A:
                 self.starts.append(i + 1)
-            elif c == 0x0D:
-                if i + 1 < n and b[i + 1] == 0x0A:
-                    i += 1
-                self.starts.append(i + 1)
-            elif c == 0xE2 and i + 2 < n and b[i + 1] == 0x80 and b[i + 2] in (0xA8, 0xA9):
-                self.starts.append(i + 3)
-                i += 2
             i += 1
 
     def pos(self, bytepos):
